@@ -97,6 +97,17 @@ pub fn run(name: &str, a: &Args) -> Option<String> {
                 Err(_) => "E9".to_string(),
             }
         }
+        "p_num" => {
+            let form = match a.z(0) { 1 => "JD", 2 => "MJD", _ => "SEC" };
+            let mut txt = format!("{form} {}{}", if a.z(1) == 1 { "-" } else { "" }, s_of(a.l(2)));
+            if !a.l(3).is_empty() {
+                txt.push('.');
+                txt.push_str(&s_of(a.l(3)));
+            }
+            txt.push(' ');
+            txt.push_str(&format!("{}", crate::epoch::ts(a.z(4))));
+            perr(hifitime::Epoch::from_str(&txt).map(|e| format!("1 {} {}", e.duration.total_nanoseconds(), u8::from(e.time_scale))))
+        }
         "iso_vs_display" => {
             let e = crate::epoch::epoch(a, 0);
             let x = format!("{}", Formatter::new(e, consts::ISO8601));
